@@ -28,6 +28,8 @@ def same(o):
         return m['shards'] == (r.get('shards') or [])
     if k == 'scale':
         return m['replicas'] == r['replicas'] and sorted(map(norm, m['pvcs'])) == sorted(map(norm, r['pvcs'])) and m['writes'] == r['writes']
+    if k == 'replicaseq':
+        return list(m['coordinated']) == list(r.get('coordinated') or [])
     return m['managers'] == r['managers']
 
 
